@@ -146,7 +146,7 @@ func (r *rpRun) setup(tag string) error {
 		r.rec(2, e2)
 		r.rec(3, e3)
 		r.rec(4, e4)
-	case "B", "C":
+	case "B", "C", "D":
 		e1, err := put(rb, "k1")
 		if err != nil {
 			return err
@@ -195,6 +195,18 @@ func (r *rpRun) setup(tag string) error {
 		r.rec(3, e3)
 		r.rec(4, e4)
 		r.rec(5, e5)
+		if r.in.Dag == "D" {
+			// head 7: written by the authorised writer b, correctly signed and addressed, but for another database
+			other, err := r.nodes["b"].Open("rp-other-"+tag, "keyvalue", &orbitdb.CreateDBOptions{AccessController: ac})
+			if err != nil {
+				return err
+			}
+			e7, err := put(other, "k7")
+			if err != nil {
+				return err
+			}
+			r.rec(7, e7)
+		}
 		if r.in.Dag == "C" {
 			// head 6: a well-formed entry of the authorised writer b announced under a hash that is not the hash of its contents
 			lb6, err := foreignLog(r.nodes["b"], addr)
